@@ -215,7 +215,7 @@ Lemma decode_R e : decode e $"R" = KR. Proof. reflexivity. Qed.
 (* ---------------- C05: registers ---------------- *)
 Definition is_write (c : cmd) : bool :=
   match c with
-  | KI _ _ _ | KA _ _ _ _ | KN _ | KM _ | KZ _ | KS _ | KX _ _ _ _ _ | KNak | KUnknown | KT _ => true
+  | KI _ _ _ | KA _ _ _ _ | KN _ | KM _ | KZ _ | KS _ | KX _ _ _ _ _ | KNak | KUnknown => true
   | _ => false
   end.
 Definition acked (o : outcome) : bool :=
@@ -223,15 +223,17 @@ Definition acked (o : outcome) : bool :=
 
 (* a refused write (nak, 'nak n', False, ValueError) leaves the whole device state unchanged *)
 Lemma tp_refused_unchanged e d c :
-  is_write c = true -> (forall p0 p1, c <> KT [p0; p1] \/ p1 < 0) ->
-  acked (snd (exec e d c)) = false -> fst (exec e d c) = d.
+  is_write c = true -> acked (snd (exec e d c)) = false -> fst (exec e d c) = d.
 Proof.
-  intros Hw Ht Ha. destruct c; try discriminate Hw; cbn in *;
+  intros Hw Ha. destruct c; try discriminate Hw; cbn in *;
     repeat match goal with
            | |- context [match ?x with _ => _ end] => destruct x eqn:?; cbn in *
            end; try reflexivity; try discriminate Ha.
-  destruct (Ht z z0) as [H|H]; [congruence|lia].
 Qed.
+
+(* T with a negative microsecond field raises ValueError before anything is stored *)
+Lemma tp_T_negative e d p0 p1 : p1 < 0 -> exec e d (KT [p0; p1]) = (d, OValueError).
+Proof. intros H. cbn. destruct (p1 <? 0) eqn:E; [reflexivity|lia]. Qed.
 
 (* A b s a f acknowledged: the board reads back s, a, f and nothing else changed *)
 Lemma tp_A_ack e d b s a f :
@@ -242,13 +244,13 @@ Lemma tp_A_ack e d b s a f :
     fst (exec e d (KA b s a f)) =
       set_boards (set_nth (Z.to_nat (b - 1)) (board_set_all s' a f bd) (boards d)) d.
 Proof.
-  cbn. unfold in_range.
-  destruct ((0 <=? b - 1) && (b - 1 <? Z.of_nat (length (boards d)))) eqn:E1; cbn; [|discriminate].
-  destruct (src_of_letter s) as [s'|] eqn:E2; cbn; [|discriminate].
-  destruct ((0 <=? a) && (a <? 16)) eqn:E3; cbn; [|discriminate].
-  destruct ((1 <=? f) && (f <? 5)) eqn:E4; cbn; [|discriminate].
-  destruct (nth_opt (Z.to_nat (b - 1)) (boards d)) as [bd|] eqn:E5; cbn; [|discriminate].
-  intros _. exists s', bd. repeat split; try lia. reflexivity.
+  cbn. unfold in_range. intros H.
+  destruct ((0 <=? b - 1) && (b - 1 <? Z.of_nat (length (boards d)))) eqn:E1; cbn in *; [|discriminate H].
+  destruct (src_of_letter s) as [s'|] eqn:E2; cbn in *; [|discriminate H].
+  destruct ((0 <=? a) && (a <? 16)) eqn:E3; cbn in *; [|discriminate H].
+  destruct ((1 <=? f) && (f <? 5)) eqn:E4; cbn in *; [|discriminate H].
+  destruct (nth_opt (Z.to_nat (b - 1)) (boards d)) as [bd|] eqn:E5; cbn in *; [|discriminate H].
+  exists s', bd. repeat split; try lia; reflexivity.
 Qed.
 
 (* what the status query prints for board i *)
@@ -339,4 +341,53 @@ Proof.
     rewrite app_assoc. rewrite run_app. cbn [fst].
     rewrite (tp_run_line e s l t Hi Hl Ht). cbn [fst].
     rewrite IH by (try reflexivity; exact Hls). reflexivity.
+Qed.
+
+(* ---------------- reachable states ---------------- *)
+Inductive reachable (e : env) (ch : nat) : st -> Prop :=
+| r_init : reachable e ch (init ch)
+| r_step s b : reachable e ch s -> reachable e ch (fst (step e s b)).
+
+Lemma tp_step_calOn e s b : calOn_bit (dv s) -> calOn_bit (dv (fst (step e s b))).
+Proof.
+  intros H. unfold step. destruct (is_tail b); [|exact H].
+  pose proof (exec_calOn_bit e (dv s) (decode e (msg s)) H) as H'.
+  destruct (exec e (dv s) (decode e (msg s))). exact H'.
+Qed.
+
+Lemma tp_reachable_calOn e ch s : reachable e ch s -> calOn_bit (dv s).
+Proof. induction 1; [left; reflexivity|apply tp_step_calOn; assumption]. Qed.
+
+(* every reply a reachable state can emit, byte level *)
+Lemma tp_reply_wellformed e ch s b r :
+  reachable e ch s -> snd (step e s b) = OReply r ->
+  Forall ascii r /\ (r = firmware \/ ends_with [LF] r = true).
+Proof.
+  intros Hr H. unfold step in H. destruct (is_tail b); [|discriminate H].
+  destruct (exec e (dv s) (decode e (msg s))) as [d' o] eqn:E. cbn in H. subst o.
+  split.
+  - eapply tp_reply_ascii; [eapply tp_reachable_calOn; exact Hr|exact E].
+  - destruct (tp_reply_shape _ _ _ _ _ E) as [[_ ->]|H]; [left; reflexivity|right; exact H].
+Qed.
+
+(* what the protocol echoes: the two arguments of T / E, the board number of a refused A *)
+Lemma tp_T_echo e d p0 p1 : 0 <= p1 ->
+  exists rest, snd (exec e d (KT [p0; p1])) = OReply (zstr p0 ++ $", " ++ zstr p1 ++ $", " ++ rest).
+Proof.
+  intros H. cbn. destruct (p1 <? 0) eqn:E; [lia|]. unfold time_reply.
+  destruct (tm e (ntm d)) as [[t0 t1] t2]. eexists. cbn [snd]. reflexivity.
+Qed.
+
+Lemma tp_E_echo e d p0 p1 :
+  exists rest, snd (exec e d (KE [p0; p1])) = OReply (zstr p0 ++ $", " ++ zstr p1 ++ $", " ++ rest).
+Proof.
+  cbn. unfold time_reply. destruct (tm e (ntm d)) as [[t0 t1] t2]. eexists. reflexivity.
+Qed.
+
+Lemma tp_A_refusal_echo e d b s a f r :
+  snd (exec e d (KA b s a f)) = OReply r -> r = ack \/ r = $"nak " ++ zstr b ++ [LF].
+Proof.
+  cbn. repeat match goal with
+              | |- context [match ?x with _ => _ end] => destruct x eqn:?; cbn
+              end; intros H; try discriminate H; injection H as <-; auto.
 Qed.
